@@ -234,15 +234,19 @@ CaseResult(p) ==
     [] p[1] = "dir"    -> DirCase(p[2], p[3], p[4])
     [] p[1] = "dirbig" -> DirBigCase(p[2])
 
+\* glyph sequences up to MaxLen; up to FullLen every bundle x collection mode, beyond that one of
+\* each chosen by a mix of the other parameters; beyond ThinLen also only one hmtx flag value
 MaxLen  == IF Quick THEN 3 ELSE 4
 FullLen == IF Quick THEN 1 ELSE 2
+ThinLen == 3
 
 \* hmtx transform only together with the glyf transform; side-bearing policies that make the
-\* chosen hmtx flags legal; beyond FullLen glyphs the bundle and the collection mode are a
-\* function of the other parameters instead of a free choice
+\* chosen hmtx flags legal
 FontInit ==
   \E n \in 1 .. MaxLen : \E s \in SeqsOf(1 .. Len(Pool), n) :
-  \E gt \in {0, 3} : \E hf \in (IF gt = 3 THEN {0} ELSE 0 .. 3) :
+  \E gt \in {0, 3} :
+  LET mix0 == s[1] + 3 * s[n] + 2 * s[(n + 1) \div 2] + n IN
+  \E hf \in (IF gt = 3 THEN {0} ELSE IF n > ThinLen THEN {mix0 % 4} ELSE 0 .. 3) :
   \E nhm \in {k \in {1, n - 1, n} : k >= 1} : \E lp \in LsbPols(hf) :
   LET mix == s[1] + 3 * s[n] + 5 * hf + 7 * nhm + n IN
   \E bu \in (IF n > FullLen THEN {1 + (mix % Len(Bundles))} ELSE 1 .. Len(Bundles)) :
